@@ -1,6 +1,7 @@
 """Per-property check procedures."""
 import os, json
-from . import (Run, ToolError, drive, read_trace, scenarios, digest_of, log, tlc, SPEC)
+from . import (Run, ToolError, drive, read_trace, scenarios, digest_of, log, tlc, SPEC,
+               tlc_behaviours, replay_bin)
 
 
 def sizes(run, quick, thorough):
@@ -66,6 +67,44 @@ def mc_graph(run, cfgname, timeout=900):
     run.step("mc:" + cfgname, distinct=r.get("distinct"), generated=r.get("generated"), wall=round(r["wall"], 1))
 
 
+def gen_delivery(run, dagfam, ndags, num, depth, maxchanges=5, maxbatch=3):
+    """spec -> impl: TLC samples delivery schedules over real DAGs, replayed on the implementation"""
+    d = os.path.join(run.work, dagfam)
+    drive([dagfam, run.seed, ndags, d, maxchanges])
+    cfg = open(os.path.join(SPEC, "Gen_Delivery.cfg")).read().replace("Depth = 6", f"Depth = {depth}") \
+        .replace("MaxBatch = 3", f"MaxBatch = {maxbatch}")
+    total = 0
+    for i in range(ndags):
+        dag = os.path.join(d, f"dag-{i}.json")
+        if not os.path.exists(dag):
+            continue
+        behs, r = tlc_behaviours("Gen_Delivery.tla", cfg, os.path.join(run.work, "gen"), {"DAG": dag},
+                                 num, depth + 1, run.seed + i)
+        run.add_states(r)
+        bp = os.path.join(run.work, f"beh-{dagfam}-{i}.ndjson")
+        with open(bp, "w") as f:
+            f.write("\n".join(behs) + "\n")
+        outp = os.path.join(run.work, f"rep-{dagfam}-{i}.json")
+        replay_bin(["delivery", dag, bp, outp])
+        res = json.load(open(outp))
+        total += res["behaviours"]
+        run.cov["evaluations"] += res["steps"]
+        for b in set(behs):
+            bj = json.loads(b)
+            if any(s["queue"] for s in bj):
+                run.nontrivial("beh:" + digest_of(b))
+        if behs:
+            run.sample({"dag": os.path.basename(dag), "behaviour": json.loads(behs[0])[:3]})
+        for mm in res["mismatches"][:3]:
+            obj = {"dag": json.load(open(dag)), "behaviour": mm["line"], "step": mm["step"],
+                   "fields": mm["fields"], "expected": mm["expected"], "got": mm["got"]}
+            run.violation(obj, f"replay of TLC delivery schedule on {os.path.basename(dag)}: step {mm['step']} "
+                               f"({mm['expected']['via']}) differs from the specification in {mm['fields']}",
+                          {"checks": ["replay:" + f for f in mm["fields"]], "event": mm["expected"]})
+    run.cov["traces_validated_against_impl"] += total
+    run.step("gen_delivery:" + dagfam, dags=ndags, behaviours=total)
+
+
 def c04(run):
     if os.path.exists(os.path.join(SPEC, "MC_ChangeGraph.tla")):
         mc_graph(run, "MC_ChangeGraph_quick.cfg" if run.tier == "quick" else "MC_ChangeGraph_thorough.cfg")
@@ -77,8 +116,11 @@ def c04(run):
 
 
 def c05(run):
-    if os.path.exists(os.path.join(SPEC, "MC_ChangeGraph.tla")):
-        mc_graph(run, "MC_ChangeGraph_quick.cfg" if run.tier == "quick" else "MC_ChangeGraph_thorough.cfg")
+    mc_graph(run, "MC_ChangeGraph_quick.cfg" if run.tier == "quick" else "MC_ChangeGraph_thorough.cfg")
+    if run.tier == "quick":
+        gen_delivery(run, "dag", 3, 20, 6)
+    else:
+        gen_delivery(run, "dag", 20, 150, 7, maxchanges=6)
     graph_trace(run, ["C05"], has_queue,
                 "same programs as C04; non-trivial = scenario in which some replica held a change in its "
                 "pending queue (observed through the hook and get_missing_deps)", 150, 3000)
@@ -90,7 +132,12 @@ def c38(run):
     graph_trace(run, ["C38"], has_dup,
                 "programs in which forks keep the actor id of their origin and set_actor reuses ids, so that "
                 "different changes with equal (actor, seq) exist; non-trivial = scenario with a delivery "
-                "rejected for a duplicate sequence number", 200, 4000)
+                "rejected for a duplicate sequence number", 100, 2000)
+    graph_trace(run, ["C38"], has_dup, run.cov["rule"], 250, 5000, family="dup")
+    if run.tier == "quick":
+        gen_delivery(run, "dagdup", 3, 20, 6)
+    else:
+        gen_delivery(run, "dagdup", 20, 150, 7, maxchanges=6)
 
 
 def c10(run):
